@@ -1,7 +1,7 @@
 // C12: SIMD evaluation == scalar evaluation.  Shared by harness/c12_*.cpp.
 //   -DC12_CTX=<n> selects the SIMD context (one binary per context and op group):
 //      1 x86_SSE  2 x86_AVX  3 vector_128  4 vector_256  5 vector_512  6 simde_AVX512
-//   the including .cpp defines one of C12_GROUP_UNARY / C12_GROUP_BINARY / C12_GROUP_REDUCE / C12_GROUP_MATMUL.
+//   the including .cpp defines one of C12_GROUP_UNARY / C12_GROUP_BINARY / C12_GROUP_REDUCE / C12_GROUP_MATMUL / C12_GROUP_INT.
 // Every operand is a heap buffer of exactly n elements (dynamic ndarray over std::vector) so that a packed
 // load/store that runs over the end of a buffer lands in an ASan red zone.
 // For every case the record holds:  SC <scalar evaluator result>  SI <SIMD result>  OK <evaluator returned: 1|0|-1>
@@ -404,6 +404,86 @@ VH_OP(matmul)
     else c12::matmul_t<double>(in, out);
 }
 #endif // C12_GROUP_MATMUL
+
+// =====================================================================================
+#ifdef C12_GROUP_INT
+// 32-bit integer elements ("integers where provided"): binary add/subtract/multiply, add/multiply outer and reduce
+#include "nmtools/array/array/ufuncs/add.hpp"
+#include "nmtools/array/array/ufuncs/multiply.hpp"
+#include "nmtools/array/array/ufuncs/subtract.hpp"
+
+namespace c12
+{
+    using int_arr_t = row_t<int32_t>;
+
+    template <typename A, typename axis_t, typename keepdims_t>
+    void ireduce(vh::Out& out, int rop, const A& a, axis_t axis, keepdims_t keepdims)
+    {
+        if (rop == 0) {
+            C12_RUN(view::reduce_add(a, axis, nm::None, nm::None, keepdims),
+                    na::add.reduce(a, axis, nm::None, nm::None, keepdims),
+                    na::add.reduce(a, axis, nm::None, nm::None, keepdims, C12_CTX_OBJ));
+        } else {
+            C12_RUN(view::reduce_multiply(a, axis, nm::None, nm::None, keepdims),
+                    na::multiply.reduce(a, axis, nm::None, nm::None, keepdims),
+                    na::multiply.reduce(a, axis, nm::None, nm::None, keepdims, C12_CTX_OBJ));
+        }
+    }
+} // namespace c12
+
+// ibinary <bop 0 add 1 sub 2 mul> lshape rshape ldata rdata
+VH_OP(ibinary)
+{
+    auto bop = (int)in.i();
+    auto ls = in.vec();
+    auto rs = in.vec();
+    auto ld = in.dvec();
+    auto rd = in.dvec();
+    auto a = c12::make<c12::int_arr_t>(ls, ld);
+    auto b = c12::make<c12::int_arr_t>(rs, rd);
+    switch (bop) {
+    case 0: C12_RUN(view::add(a, b), na::add(a, b), na::add(a, b, C12_CTX_OBJ)); break;
+    case 1: C12_RUN(view::subtract(a, b), na::subtract(a, b), na::subtract(a, b, C12_CTX_OBJ)); break;
+    case 2: C12_RUN(view::multiply(a, b), na::multiply(a, b), na::multiply(a, b, C12_CTX_OBJ)); break;
+    default: out.tok("ERR bop");
+    }
+}
+
+// iouter <bop 0 add 2 mul> lshape rshape ldata rdata
+VH_OP(iouter)
+{
+    auto bop = (int)in.i();
+    auto ls = in.vec();
+    auto rs = in.vec();
+    auto ld = in.dvec();
+    auto rd = in.dvec();
+    auto a = c12::make<c12::int_arr_t>(ls, ld);
+    auto b = c12::make<c12::int_arr_t>(rs, rd);
+    switch (bop) {
+    case 0: C12_RUN(view::outer_add(a, b, nm::None), na::add.outer(a, b, nm::None), na::add.outer(a, b, nm::None, C12_CTX_OBJ)); break;
+    case 2: C12_RUN(view::outer_multiply(a, b, nm::None), na::multiply.outer(a, b, nm::None), na::multiply.outer(a, b, nm::None, C12_CTX_OBJ)); break;
+    default: out.tok("ERR bop");
+    }
+}
+
+// ireduce <rop 0 add 1 mul> <axis|-99> <keepdims 0|1> shape data
+VH_OP(ireduce)
+{
+    auto rop = (int)in.i();
+    auto axis = (int)in.i();
+    auto keepdims = (int)in.i();
+    auto shape = in.vec();
+    auto data = in.dvec();
+    auto a = c12::make<c12::int_arr_t>(shape, data);
+    if (axis == -99) {
+        if (keepdims) c12::ireduce(out, rop, a, nm::None, nm::True);
+        else c12::ireduce(out, rop, a, nm::None, nm::False);
+    } else {
+        if (keepdims) c12::ireduce(out, rop, a, axis, nm::True);
+        else c12::ireduce(out, rop, a, axis, nm::False);
+    }
+}
+#endif // C12_GROUP_INT
 
 VH_OP(ctxname)
 {
